@@ -281,4 +281,24 @@ PROPS['C02'] = {
     'assumptions': ['the library-level generator exists before the run (get_gv_rng() creates it lazily; creation is not counted as a perturbation)'],
 }
 
+HEAPM = 'harness.corr_heap'
+PROPS['C03'] = {
+    'targets': ['GridVerse.Props.C03'],
+    'theorem_files': [('GridVerse/Props/C03.lean', 'C03_')],
+    'audit_prefix': 'C03_',
+    'families': {
+        'quick': [(HEAPM, 'fam_heap_smallscope', 0, 16), (HEAPM, 'fam_heap_inplace', 6000, 16), (HEAPM, 'fam_heap_step', 3000, 16), (HEAPM, 'fam_heap_obs', 3000, 16), (HEAPM, 'fam_heap_copy', 1000, 16), (ENVM, 'fam_env_shipped', 84, 16), (CORE, 'fam_spath', 2000, 16), ('harness.corr_rays', 'fam_rays', 4, 16)],
+        'thorough': [(HEAPM, 'fam_heap_smallscope', 0, 16), (HEAPM, 'fam_heap_inplace', 300000, 16), (HEAPM, 'fam_heap_step', 150000, 16), (HEAPM, 'fam_heap_obs', 150000, 16), (HEAPM, 'fam_heap_copy', 50000, 16), (ENVM, 'fam_env_shipped', 21 * 100, 16), (CORE, 'fam_spath', 100000, 16), ('harness.corr_rays', 'fam_rays', 7, 16)],
+    },
+    'oracle_cases': {'quick': 960, 'thorough': 40000},
+    'trusted_base': [
+        'reference-level model (Model/Heap.lean): Python object identity and assignment for the outer list, row lists, GridObject instances, Agent and Transform, transcribed by hand; tied by the identity-level correspondence (which pre-existing nodes change, and the provenance of every container, cell object, box-content chain and held object of the result) on the exhaustive small scope and random states',
+        'pickle round trip is modelled as "read the value, allocate everything anew" (objects shared between two cells would stay shared under pickle; no state built by the library shares objects)',
+        'reward and termination functions have no heap effect in the model; that the real ones assign nothing is checked by node-level snapshots around every call (oracle budget), not proved',
+        'functools.lru_cache is modelled as a bounded association list (hit returns the stored value); callers mutating a returned cached object are outside the model and visible only to the history correspondence',
+    ],
+    'assumptions': ['Shaped: the grid of the input state is rectangular', 'Closed: unallocated memory holds no object contents (true of every heap built by allocation from the empty heap: C03_premises_of_load)'],
+    'level_text': 'Lean 4 theorems on a reference-level (heap) model of states: frame/ownership invariant preserved by all seven in-place transition functions, copy allocates only, observation assigns only into fresh containers; model tied to /repo by identity-level differential execution.',
+}
+
 NOT_CLAIMED = {}
